@@ -399,6 +399,9 @@ pub fn install_panic_hook() {
             "<non-string panic>".to_string()
         };
         let loc = info.location().map(|l| format!("{}:{}", l.file(), l.line())).unwrap_or_default();
+        if std::env::var_os("PCSIM_DEBUG_PANICS").is_some() {
+            eprintln!("panic: {} @ {}", msg.lines().next().unwrap_or(""), loc);
+        }
         LAST_PANIC.with(|p| *p.borrow_mut() = Some(format!("{} @ {}", msg.lines().next().unwrap_or(""), loc)));
     }));
 }
